@@ -22,9 +22,9 @@ import (
 // compared with the per-connection pairing model (Req/Pool/Pairing.lean).
 func TestVerif_C09_pair(t *testing.T) {
 	s := verifh.New(t, "C09", "pair",
-		"sequences of 3..14 sequential requests of kinds NB (no body) / E1, EX (POST with Expect: 100-continue answered by 100 Continue + 200, or by a final 403/404/500 without 100 on a kept-alive connection; the origin checks that the promised body arrives) / B (Content-Length body read to EOF) / CH (chunked) / HD (HEAD) / BX (caller closes the body early) / BK (Connection: close) / NBK (no body + close) / BI (CloseIdleConnections before the body is drained) against a raw HTTP/1.1 origin; observed per request: connection sequence number, GotConn.Reused, order of PutIdleConn(nil|err) / response returned / EOF; plus tag echo; non-trivial = at least one reuse and one non-reuse in the sequence")
+		"sequences of 3..14 sequential requests of kinds NB (no body) / E1, EX (POST with Expect: 100-continue answered by 100 Continue + 200, or by a final 403/404/500 without 100 on a kept-alive connection; the origin checks that the promised body arrives) / B (Content-Length body read to EOF) / CH (chunked) / HD (HEAD) / BX (caller closes the body early) / BK (Connection: close) / NBK (no body + close) / BI (CloseIdleConnections before the body is drained) / NBU, BU (like NB, B but the origin writes unsolicited bytes behind the complete response — a duplicate of it, a response nobody asked for, garbage, half a status line; at once or 3 ms later — and the caller lets the read loop see them: the connection must be dropped, the next request gets its own response on a new one) against a raw HTTP/1.1 origin; observed per request: connection sequence number, GotConn.Reused, order of PutIdleConn(nil|err) / response returned / EOF; plus tag echo; non-trivial = at least one reuse and one non-reuse in the sequence")
 	r := s.Rand()
-	kinds := []string{"NB", "B", "B", "CH", "HD", "BX", "BK", "NBK", "BI", "E1", "EX"}
+	kinds := []string{"NB", "B", "B", "CH", "HD", "BX", "BK", "NBK", "BI", "E1", "EX", "NBU", "BU"}
 	n := verifh.N(150, 2500)
 	nBad := 0
 	wedged := false
@@ -87,6 +87,11 @@ func TestVerif_C09_pair(t *testing.T) {
 				pl.size, pl.expect = verifh.Pick(r, []int{1, 300}), 1
 			case "EX":
 				pl.size, pl.expect, pl.status = verifh.Pick(r, []int{1, 300}), 2, verifh.Pick(r, []int{403, 404, 500})
+			case "NBU":
+				pl.extra, pl.extraDelay = 1+r.Intn(4), verifh.Pick(r, []int{0, 3})
+			case "BU":
+				pl.size, pl.chunked = verifh.Pick(r, []int{1, 300, 9000}), r.Intn(3) == 0
+				pl.extra, pl.extraDelay = 1+r.Intn(4), verifh.Pick(r, []int{0, 3})
 			}
 			if kind == "BX" {
 				pl.size = 9000
@@ -141,7 +146,7 @@ func TestVerif_C09_pair(t *testing.T) {
 				io.ReadFull(resp.Body, buf)
 				resp.Body.Close()
 				add("C")
-			case "NB", "HD", "NBK":
+			case "NB", "HD", "NBK", "NBU":
 				io.Copy(io.Discard, resp.Body)
 				resp.Body.Close()
 			default:
@@ -159,6 +164,24 @@ func TestVerif_C09_pair(t *testing.T) {
 			// body at EOF before the caller sees EOF; nothing fires later, but give a stray late
 			// event a chance to show up as a disagreement
 			time.Sleep(200 * time.Microsecond)
+			if pl.extra != 0 {
+				// the unsolicited bytes reach the idle connection; its read loop drops it (at once on
+				// the unchanged code). Wait for that, bounded: a connection that stays pooled is
+				// what the next request will show.
+				for dl := time.Now().Add(400 * time.Millisecond); time.Now().Before(dl); {
+					tr.idleMu.Lock()
+					idle := 0
+					for _, l := range tr.idleConn {
+						idle += len(l)
+					}
+					tr.idleMu.Unlock()
+					if idle == 0 {
+						s.Count("unsolicited-bytes-dropped-the-idle-connection")
+						break
+					}
+					time.Sleep(200 * time.Microsecond)
+				}
+			}
 			mu.Lock()
 			reusedS := "0"
 			if reused {
